@@ -1,17 +1,27 @@
 #!/bin/bash
-# seed_sweep.sh — run every seeded change against the check of its property (sequential: /repo is shared);
-# writes seeded/RESULTS.md. Seeds whose patch no longer applies to /repo HEAD are listed as such.
+# seed_sweep.sh [jobs] — run every seeded change against the check of its property (each in its own scratch
+# worktree of /repo HEAD, see try_seed.sh; /repo itself is never touched); writes seeded/RESULTS.md.
+# Seeds whose patch no longer applies to /repo HEAD are listed as such.
 cd /verif
-echo "| seed | property | quick check on the seeded tree | replay kind |" > seeded/RESULTS.md
-echo "|---|---|---|---|" >> seeded/RESULTS.md
-for d in seeded/C*/; do
-  S=$(basename $d); C=${S%%-*}
+J=${1:-3}
+mkdir -p build/sweep; rm -f build/sweep/*.res
+one() {
+  S=$1; C=${S%%-*}
   out=$(tools/try_seed.sh $S $C 2>&1)
   if echo "$out" | grep -q "does not apply"; then res="patch no longer applies to /repo HEAD (superseded by a re-based copy)"; kind="-"
   elif echo "$out" | grep -q "exit 0"; then res="MISSED (check stayed green)"; kind="-"
+  elif echo "$out" | grep -q "^VIOLATION.*replay=[^ ]*-[0-9]*\.json *$"; then res="VIOLATION"; kind="concrete failing input (oracle finding, shrunk replay)"
   elif echo "$out" | grep -q "no-failing-input-found"; then res="VIOLATION"; kind="no-failing-input-found (broken obligation / correspondence only)"
   elif echo "$out" | grep -q "^VIOLATION"; then res="VIOLATION"; kind="concrete failing input (oracle finding, shrunk replay)"
   else res="?"; kind="$(echo "$out" | tail -1)"; fi
-  echo "| $S | $C | $res | $kind |" >> seeded/RESULTS.md
+  echo "| $S | $C | $res | $kind |" > build/sweep/$S.res
   echo "$S: $res / $kind"
-done
+}
+export -f one
+ls -d seeded/C*/ | xargs -n1 basename | xargs -P $J -I{} bash -c 'one {}'
+{
+  echo "| seed | property | quick check on the seeded tree | replay kind |"
+  echo "|---|---|---|---|"
+  cat $(ls build/sweep/*.res | sort -V)
+} > seeded/RESULTS.md
+grep -c VIOLATION seeded/RESULTS.md; grep MISSED seeded/RESULTS.md
